@@ -615,6 +615,7 @@ func main() {
 		}
 		var base json.RawMessage
 		var runs []json.RawMessage
+		var diags []string
 		for pi, r := range ra {
 			var o obsT
 			json.Unmarshal(r, &o)
@@ -651,6 +652,7 @@ func main() {
 					}
 					j, _ := json.Marshal([]interface{}{pos, vals[i], letter, -1, nil})
 					runs = append(runs, j)
+					diags = append(diags, fmt.Sprintf("%d,%d: %s", pos, vals[i], string(r1)))
 					continue
 				}
 				base = o1.Base
@@ -660,7 +662,7 @@ func main() {
 		if base == nil {
 			continue // every single run died: keep the whole case as a crash
 		}
-		j, _ := json.Marshal(map[string]interface{}{"base": base, "runs": runs, "isolated": true})
+		j, _ := json.Marshal(map[string]interface{}{"base": base, "runs": runs, "isolated": true, "diags": diags})
 		res2[pd.cmd] = j
 	}
 
